@@ -6,7 +6,7 @@ package jsonrpc
 // This file contains comments only; it is compiled only with the build tag `verif` and adds no code.
 
 //@ property C10 units: normalizeID, (*wsConn).cancelCtx, (*wsConn).handleChanMessage, (*wsConn).handleChanClose, (*wsConn).handleResponse, (*wsConn).handleFrame, (*wsConn).frameExecutor, (*wsConn).handleCall, (*wsConn).readFrame, (*wsConn).nextMessage, (*handler).handleReader, (*handler).handle, rpcError, (*handler).createError, (response).MarshalJSON, (*handler).getSpan, (*JSONRPCError).val, (*rpcFunc).processResponse, (*client).makeOutChan$1$2
-//@ property C13 units: doCall
+//@ property C13 units: doCall, (*handler).handle
 //@ property C05 units: (*backoff).next
 
 //@ -- ------------------------------------------------------------------ shared vocabulary
@@ -92,6 +92,10 @@ package jsonrpc
 //@   modifies nothing
 //@   requires rpcError != nil && w != nil && done != nil && handlersOK(s)
 //@   loop 1 invariant param-index: i >= 0 [C10,C01,C12]
+//@   ghost callErr : U = nil
+//@   at ret doCall: set callErr = $result1
+//@   ensures done-always-runs: calls(done) >= 1 [C13,C06,C15]
+//@   ensures panic-gets-one-error-reply: callErr != nil ==> calls(rpcError) == 1 && calls(withLazyWriter) == 0 [C13,C09]
 //@   nopanic [C10]
 
 //@ func rpcError
@@ -126,7 +130,10 @@ package jsonrpc
 //@   modifies nothing
 //@   nopanic [C13]
 //@   ensures result-shape: result1 == nil ==> len(result0) == NumOut(rtypeOf(f)) && (forall i :: 0 <= i && i < len(result0) ==> rtypeOf(result0[i]) == OutT(rtypeOf(f), i)) [C13,C10,C01]
-//@   ensures panic-is-error: didpanic() ==> result1 != nil [C13]
+//@   ensures panic-is-error: didpanic() ==> result1 != nil && result1 == panicErr [C13]
+//@   ghost panicErr : U = nil
+//@   at ret xerrors.Errorf: set panicErr = $result0
+//@   at call xerrors.Errorf: assert error-mentions-method-and-payload: unbox($1[0], #string) == methodName && $1[1] == i && i != nil [C13]
 
 //@ func (*backoff).next
 //@   modifies nothing
